@@ -88,7 +88,16 @@ def main():
             sh(f"git -C /repo worktree remove --force {wt}")
             shutil.rmtree(wt, ignore_errors=True)
             sh("git -C /repo worktree prune")
-    json.dump(results, open(resp, "w"), indent=1, sort_keys=True)
+    # several seedrun processes may run side by side: merge what THIS process computed under a lock
+    import fcntl
+    with open(os.path.join(ROOT, "work", ".seedrun_results.lock"), "w") as lk:
+        fcntl.flock(lk, fcntl.LOCK_EX)
+        on_disk = json.load(open(resp)) if os.path.exists(resp) else {}
+        for s in seeds:
+            name = os.path.basename((os.path.join(ROOT, s) if not os.path.isabs(s) else s).rstrip("/"))
+            if name in results:
+                on_disk[name] = results[name]
+        json.dump(on_disk, open(resp, "w"), indent=1, sort_keys=True)
 
 
 main()
